@@ -74,3 +74,33 @@ Qed.
 
 Example exF_parsed_solve_hyps : forall p, In p [1; 2; 3]%nat -> (p < hd 0%nat (shape (vals_of exF_s)))%nat.
 Proof. intros p [<-|[<-|[<-|[]]]]; cbn; lia. Qed.
+
+(* ---------------- finding: the instance attribute `lags` lowered below the deepest lag of the equations ----------------
+   model.lags = 0 on the one-lag model: the guard of solve_t follows the instance attribute, so period 0 is SERVED, the
+   read Y[t-1] is served the LAST period (Y[0] := 0.5 * Y[3] + X[0] = 3.0) and the period is stamped solved *)
+Definition ex_d_lowered : mdesc := mkDesc [0%nat] [0%nat] 0%nat 0%nat.
+
+Example ex_lowered_lags_served_wrapped :
+  f_solve_t_P [] ex_prog ex_d_lowered (ex_o 0) 0 ex_s =
+  (mkState [[3%float; 2%float; 3%float; 4%float]; [1%float; 1%float; 1%float; 1%float]]
+           [Solved; Unsolved; Unsolved; Unsolved] [2; -1; -1; -1] [EvBefore 0; EvPass 0 1; EvPass 0 2; EvAfter 0 2], Ret true).
+Proof. vm_compute. reflexivity. Qed.
+
+Lemma lowered_instance_lags_refuted :
+  exists (prog : fprogram) d o t s p (a : access),
+    (lags d < prog_lags float prog)%nat /\
+    py_pos (length (status s)) t = Some p /\ (p < prog_lags float prog)%nat /\
+    snd (f_solve_t_P [] prog d o t s) = Ret true /\
+    In a (snd (f_eval_pass [] true prog t (vals_of s))) /\ acc_req a = t + (-1) /\
+    acc_srv a = Some (length (status s) - 1)%nat /\
+    nth_error (nth 0 (vals_of s) []) 0 = Some 1%float /\
+    nth_error (nth 0 (vals_of (fst (f_solve_t_P [] prog d o t s))) []) 0 = Some 3%float.
+Proof.
+  exists ex_prog, ex_d_lowered, (ex_o 0), 0, ex_s, 0%nat, (Acc false 0%nat (-1) (Some 3%nat)).
+  rewrite ex_lowered_lags_served_wrapped.
+  split; [cbn; lia|]. split; [reflexivity|]. split; [cbn; lia|]. split; [reflexivity|].
+  split; [vm_compute; left; reflexivity|]. repeat split; reflexivity.
+Qed.
+
+Example ex_span_nodup : NoDup ex_span.
+Proof. unfold ex_span. repeat constructor; cbn [In]; intuition discriminate. Qed.
